@@ -437,7 +437,7 @@ func editedPair(r *hx.Rand, d string) (*schema.Schema, *schema.Schema) {
 	// edits on `to`
 	var kept []*schema.Table
 	for _, t := range to.Tables {
-		switch er.Intn(5) {
+		switch er.Intn(6) {
 		case 0: // drop table
 			continue
 		case 1: // drop the last column, or the last two (and what hangs on them)
@@ -473,6 +473,41 @@ func editedPair(r *hx.Rand, d string) (*schema.Schema, *schema.Schema) {
 			t.AddColumns(nc, nc2)
 			t.AddIndexes(schema.NewIndex("added_i").AddColumns(nc), schema.NewIndex("added_j").AddColumns(nc2))
 			t.Columns[0].Type.Null = !t.Columns[0].Type.Null
+		case 4: // modify what exists: foreign keys (other parent table / other action), indexes, checks, a default, the comment
+			for _, fk := range t.ForeignKeys {
+				switch er.Intn(3) {
+				case 0:
+					// same symbol, another parent table (one that has a first column to reference)
+					for _, p := range to.Tables {
+						if p != fk.RefTable && p != t && len(p.Columns) > 0 {
+							fk.RefTable, fk.RefColumns = p, []*schema.Column{p.Columns[0]}
+							break
+						}
+					}
+				case 1:
+					if fk.OnDelete == schema.Cascade {
+						fk.OnDelete = schema.NoAction
+					} else {
+						fk.OnDelete = schema.Cascade
+					}
+				}
+			}
+			for _, ix := range t.Indexes {
+				if er.Chance(1, 2) {
+					ix.Unique = !ix.Unique
+				}
+			}
+			for _, a := range t.Attrs {
+				if ck, ok := a.(*schema.Check); ok && er.Chance(1, 2) {
+					ck.Expr = "(" + ck.Expr + " OR 1 = 1)"
+				}
+			}
+			if len(t.Columns) > 1 {
+				t.Columns[1].Type.Null = !t.Columns[1].Type.Null
+			}
+			if d != "sqlite" {
+				t.SetComment("changed comment")
+			}
 		}
 		kept = append(kept, t)
 	}
